@@ -159,19 +159,49 @@ class Builtin:
         self.name = name
 
 
+def _copy_containers(v, memo):
+    """python lists / dicts (mutable, possibly shared inside one state) are copied so that a forked
+    state never sees the other branch's in-place updates; aliasing inside the state is preserved"""
+    if isinstance(v, list):
+        if id(v) in memo:
+            return memo[id(v)]
+        c = memo[id(v)] = []
+        c.extend(_copy_containers(x, memo) for x in v)
+        return c
+    if isinstance(v, dict):
+        if id(v) in memo:
+            return memo[id(v)]
+        c = memo[id(v)] = {}
+        for k, x in v.items():
+            c[k] = _copy_containers(x, memo)
+        return c
+    if isinstance(v, tuple) and any(isinstance(x, (list, dict, tuple)) for x in v):
+        return tuple(_copy_containers(x, memo) for x in v)
+    return v
+
+
 class State:
     def __init__(self):
         self.objs = {}  # oid -> dict(cls=PyClass|str, fields={})
         self.pc = []
         self.effects = []
-        self.locals = {}
+        self.frames = [{}]  # call stack of local environments (innermost last)
+
+    @property
+    def locals(self):
+        return self.frames[-1]
+
+    @locals.setter
+    def locals(self, env):
+        self.frames[-1] = env
 
     def fork(self):
         s = State()
-        s.objs = {k: {"cls": v["cls"], "fields": dict(v["fields"])} for k, v in self.objs.items()}
+        memo = {}
+        s.objs = {k: {"cls": v["cls"], "fields": {fk: _copy_containers(fv, memo) for fk, fv in v["fields"].items()}} for k, v in self.objs.items()}
         s.pc = list(self.pc)
         s.effects = list(self.effects)
-        s.locals = dict(self.locals)
+        s.frames = [{k: _copy_containers(v, memo) for k, v in fr.items()} for fr in self.frames]
         return s
 
     def new_obj(self, cls, fields=None):
@@ -314,8 +344,8 @@ class PyExec:
             kwargs = {}
         if kwargs:
             return [Outcome("raise", Const(TypeError), st)]
-        saved = st.locals
-        st.locals = env
+        st.frames.append(env)
+        depth0 = len(st.frames)
         # evaluate defaults (constants in this code base)
         for i, pn in enumerate(params):
             if env.get(pn, 0) is None and defaults[i] is not None and i >= len(args):
@@ -330,7 +360,9 @@ class PyExec:
             self.depth -= 1
         res = []
         for kind, val, s in outs:
-            s.locals = saved
+            if len(s.frames) != depth0:
+                raise Unsupported("unbalanced call stack in %s" % fn.name)
+            s.frames.pop()
             if kind == "fall":
                 res.append(Outcome("return", Const(None), s))
             elif kind in ("return", "raise"):
@@ -738,7 +770,25 @@ class PyExec:
         return [("val", Const(node.value), st)]
 
     def e_JoinedStr(self, node, st, fn):
-        return [("val", Const("<f-string>"), st)]
+        # the text is not modelled, but the embedded expressions are evaluated (they may raise)
+        states = [st]
+        out = []
+        for part in node.values:
+            if not isinstance(part, ast.FormattedValue):
+                continue
+            nxt = []
+            for s in states:
+                try:
+                    rs = self.eval(part.value, s, fn)
+                except Unsupported:
+                    rs = [("val", Opaque("fmt"), s)]  # an expression outside the subset: assumed not to raise
+                for k, v, s2 in rs:
+                    if k == "raise":
+                        out.append((k, v, s2))
+                    else:
+                        nxt.append(s2)
+            states = nxt
+        return out + [("val", Const("<f-string>"), s) for s in states]
 
     def e_Name(self, node, st, fn):
         n = node.id
@@ -1132,6 +1182,9 @@ class PyExec:
         return out
 
     def subscript(self, base, idx, st):
+        if isinstance(base, Opaque) and base.what == "tuple-of-unknown-length":
+            s2 = st.fork()
+            return [("val", Opaque("element"), st), ("raise", Const(IndexError), s2)]
         if isinstance(base, dict):
             key = idx.v if isinstance(idx, Const) else self.concrete(idx)
             if key in base:
@@ -1237,7 +1290,15 @@ class PyExec:
                     if k3 == "raise":
                         out.append((k3, kwargs, s3))
                     else:
-                        out.extend(self.call(f, args, kwargs, s3, fn, node))
+                        f3 = f
+                        if s3 is not s and isinstance(f, BoundMethod) and isinstance(f.selfref, (list, dict)):
+                            # a method of a python container, looked up before the arguments were
+                            # evaluated: the argument evaluation forked the state, so the container
+                            # is looked up again in the state the call happens in
+                            re_ = self.eval(node.func, s3, fn)
+                            if len(re_) == 1 and re_[0][0] == "val" and re_[0][2] is s3:
+                                f3 = re_[0][1]
+                        out.extend(self.call(f3, args, kwargs, s3, fn, node))
         return out
 
     def call(self, f, args, kwargs, st, fn, node=None):
@@ -1600,6 +1661,13 @@ class PyExec:
                 w, sg = DT[src.dtype]
                 st.pc += [m >= 0, m < (1 << w)]
             return [("val", Sym(m, src.dtype if src.dtype in DT else "int"), st)]
+        if name in ("arr.any", "arr.all") and not args and not kwargs:
+            # a named predicate of the array's contents (same array value, same term): nothing else
+            # is known about it, so both outcomes are explored
+            nm = "%s_%s" % (name.split(".")[1], selfv.data)
+            if not (selfv.data.startswith("row_") or selfv.data.startswith("zeros") or selfv.data.startswith("shm:")):
+                nm = uid(nm)
+            return [("val", Sym(z3.Bool(nm), "bool"), st)]
         if name == "arr.tobytes":
             t = z3.Int("rowbytes_" + selfv.data) if isinstance(selfv, Arr) and selfv.data.startswith("row_") else z3.Int(uid("bytes"))
             v = Sym(t, "bytes")
